@@ -26,6 +26,9 @@
 //   C_POS = 128  near a knot the neighbouring bin's line may be used (log(E) vs the log grid:
 //                F-GRID-1 and the log/exp round trip displace bin edges by < 100 ulp(E)); its
 //                effect on the value is bounded by C_POS * ulp(x_k) * (bound on |slope|)
+//   C_PRIME = 1e-11 (relative, not eps) the grid point that IS the user's first scaled energy E':
+//                within E'(1 -/+ 1e-11) -- the builder documents soft equality (1e-12 relative,
+//                1e-14 absolute) on the LOG energies, |log E| <= 18.5
 //   C_EXT = 64   relative bracket around an oracle-decided extrapolation reference
 //   C_LOSS = 32  mean energy loss, monotone in the step up to l + 32 eps E (E - E' cancellation)
 //   C_CMP = 16   inverse(range(E)): 16 eps E + 16 ulp(r) * (local dE/dr); if E is within C_POS ulp of
@@ -79,6 +82,7 @@ constexpr double C_VAL = 4;
 constexpr double C_POS = 128;
 constexpr double C_EXT = 64;
 constexpr double C_CMP = 16;
+constexpr double C_PRIME = 1e-11;  // a grid point IS the user's E' if within E'(1 -/+ 1e-11)
 double const INF = std::numeric_limits<double>::infinity();
 //! VGRID_RAW=1: add the raw doubles (%.17g) to every record for diagnosis (ignored by the spec)
 bool const g_raw = std::getenv("VGRID_RAW") != nullptr;
@@ -138,7 +142,11 @@ struct Table
     std::string calc;  // xs | eloss | range | invrange | generic
     std::string real;  // realisation label
     int p{-1};  // prime index actually stored (-1 none)
-    int pu{-1};  // prime index the user asked for (builder realisations), else = p
+    // p is the EXPECTED prime index: for builder realisations the index of the grid point that IS
+    // the user's first scaled energy E' (the spec re-derives it from the knots and E'), and the
+    // stored values are read with it (value_k / E_k for k >= p); pb is what the builder stored.
+    int pb{-1};
+    double eprime{std::numeric_limits<double>::quiet_NaN()};  // user's E' (builder realisations)
     bool logx{true};  // abscissae are positive energies of a log grid
     std::vector<double> x;  // knot abscissae
     std::vector<double> y;  // unscaled table value at knot
@@ -271,9 +279,18 @@ void emit_table(verif::NdjsonWriter& w,
                 std::vector<Query> const& qs,
                 F&& eval,
                 Extrap const& ext,
-                std::vector<CompQuery> const& comp = {})
+                std::vector<CompQuery> const& comp = {},
+                int w0 = 0,
+                int w1 = -1)
 {
+    // [w0, w1]: window of knots that is logged (default: the whole table).  Brackets are computed
+    // on the full table; a window's last knot is queried as "atlast" (same relations as "at").
     int n = int(t.x.size());
+    if (w1 < 0)
+        w1 = n - 1;
+    auto cut = [w0, w1](std::vector<double> const& v) {
+        return std::vector<double>(v.begin() + w0, v.begin() + w1 + 1);
+    };
     std::vector<double> ytol, stol;
     knot_tolerances(t, ytol, stol);
     std::vector<double> ylo(n), yhi(n), slo(n), shi(n), sv(n), xnl(n), xnh(n);
@@ -336,31 +353,42 @@ void emit_table(verif::NdjsonWriter& w,
             rank.add(c.v);
         }
     }
+    // the user's first scaled energy with the builder's documented soft equality (C_PRIME)
+    bool hasep = std::isfinite(t.eprime);
+    double ep = hasep ? t.eprime : 0.0;
+    rank.add(ep);
+    rank.add(ep * (1 - C_PRIME));
+    rank.add(ep * (1 + C_PRIME));
     rank.finalize();
     json rec;
     rec["e"] = "Table";
     rec["calc"] = t.calc;
     rec["real"] = t.real;
-    rec["n"] = n;
-    rec["p"] = t.p;
-    rec["pu"] = t.pu;
+    rec["n"] = w1 - w0 + 1;
+    rec["nfull"] = n;
+    rec["p"] = t.p < 0 ? -1 : t.p - w0;
+    rec["pb"] = t.pb < 0 ? -1 : t.pb - w0;
+    rec["hasep"] = hasep;
+    rec["ep"] = rank(ep);
+    rec["eplo"] = rank(ep * (1 - C_PRIME));
+    rec["ephi"] = rank(ep * (1 + C_PRIME));
     rec["zero"] = rank(0.0);
-    rec["xk"] = jseq(t.x, rank);
-    rec["yk"] = jseq(t.y, rank);
-    rec["ylo"] = jseq(ylo, rank);
-    rec["yhi"] = jseq(yhi, rank);
-    rec["sk"] = jseq(sv, rank);
-    rec["slo"] = jseq(slo, rank);
-    rec["shi"] = jseq(shi, rank);
-    rec["xnl"] = jseq(xnl, rank);
-    rec["xnh"] = jseq(xnh, rank);
+    rec["xk"] = jseq(cut(t.x), rank);
+    rec["yk"] = jseq(cut(t.y), rank);
+    rec["ylo"] = jseq(cut(ylo), rank);
+    rec["yhi"] = jseq(cut(yhi), rank);
+    rec["sk"] = jseq(cut(sv), rank);
+    rec["slo"] = jseq(cut(slo), rank);
+    rec["shi"] = jseq(cut(shi), rank);
+    rec["xnl"] = jseq(cut(xnl), rank);
+    rec["xnh"] = jseq(cut(xnh), rank);
     json jq = json::array();
     for (std::size_t i = 0; i < qs.size(); ++i)
     {
         auto const& q = qs[i];
         auto const& r = res[i];
         jq.push_back({{"c", q.c},
-                      {"k", q.k},
+                      {"k", q.k - w0},
                       {"x", rank(q.x)},
                       {"xu", rank(fup(q.x))},
                       {"xd", rank(fdn(q.x))},
@@ -398,6 +426,8 @@ void emit_table(verif::NdjsonWriter& w,
             cr.push_back({raw(c.x), raw(c.r), raw(c.v), raw(c.lo), raw(c.hi)});
         rec["raw"]["comp"] = cr;
         rec["raw"]["ux"] = raws(t.ux);
+        rec["raw"]["w0"] = w0;
+        rec["raw"]["eprime"] = raw(t.eprime);
         rec["raw"]["loggrid_front_back_delta"] = raws(t.lg);
     }
     w(rec);
@@ -464,13 +494,16 @@ struct XsStore
 };
 
 // Fill Table from what the calculator will read
-Table table_from_store(XsStore const& st, std::string calc, std::string real)
+Table table_from_store(XsStore const& st, std::string calc, std::string real, int expected_prime = -2,
+                       double eprime = std::numeric_limits<double>::quiet_NaN())
 {
     Table t;
     t.calc = std::move(calc);
     t.real = std::move(real);
     t.logx = true;
-    t.p = t.pu = st.prime();
+    t.pb = st.prime();
+    t.p = expected_prime == -2 ? t.pb : expected_prime;
+    t.eprime = eprime;
     t.x = st.knots();
     t.lg = {st.data.log_energy.front, st.data.log_energy.back, st.data.log_energy.delta};
     auto v = st.values();
@@ -794,8 +827,7 @@ void mode_tables(unsigned long seed, int reps, int nlo, int nhi, std::string con
                     ValueGridXsBuilder b(ue[0], ue[p], ue[n - 1], xs);
                     XsStore st;
                     st.built(b);
-                    Table t = table_from_store(st, "xs", "b_ctor");
-                    t.pu = p;
+                    Table t = table_from_store(st, "xs", "b_ctor", p, ue[p]);
                     t.ux = ue;
                     run_xs(w, rng, st, t);
                     ++ntab;
@@ -816,8 +848,7 @@ void mode_tables(unsigned long seed, int reps, int nlo, int nhi, std::string con
                         make_span(le), make_span(l), make_span(pe), make_span(lp));
                     XsStore st;
                     st.built(*b);
-                    Table t = table_from_store(st, "xs", "b_geant");
-                    t.pu = p;
+                    Table t = table_from_store(st, "xs", "b_geant", p, ue[p]);
                     t.ux = ue;
                     run_xs(w, rng, st, t);
                     ++ntab;
@@ -833,8 +864,7 @@ void mode_tables(unsigned long seed, int reps, int nlo, int nhi, std::string con
                     auto b = ValueGridXsBuilder::from_scaled(make_span(ue), make_span(lp));
                     XsStore st;
                     st.built(*b);
-                    Table t = table_from_store(st, "xs", "b_scaled");
-                    t.pu = 0;
+                    Table t = table_from_store(st, "xs", "b_scaled", 0, ue[0]);
                     t.ux = ue;
                     run_xs(w, rng, st, t);
                     ++ntab;
@@ -882,6 +912,85 @@ void mode_tables(unsigned long seed, int reps, int nlo, int nhi, std::string con
     }
     w({{"e", "Close"}, {"n", w.count()}});
     (void)ntab;
+}
+
+//---------------------------------------------------------------------------//
+// mode sweep: decade-aligned Geant4-style grids emin = 10^lo, emax = 10^hi, 1..20 bins per decade,
+// with the first E-scaled energy E' on EVERY admissible grid point (so also exactly 1 MeV, 10^-1,
+// 10^1, ...: log E' = 0 is where a relative roundoff test degenerates), built by
+// ValueGridXsBuilder::from_geant (and the constructor), queried around the prime index: knots
+// prime-2 .. prime+2, +-1 ulp, mid-bins.  full = 0: every E' = 1 MeV case, every decade-aligned E'
+// at 7 bins/decade, the Geant4 default grid 1e-4..1e8 at 7 bins/decade with every E', and a
+// seeded 1/24 sample of the rest.
+void mode_sweep(unsigned long seed, int full, int shard, int nshards, std::string const& out)
+{
+    verif::NdjsonWriter w(out);
+    Rng rng(seed * 7919 + shard);
+    std::mt19937_64 pick(seed);
+    long idx = 0, sel = 0;
+    for (int lo = -6; lo <= 0; ++lo)
+        for (int hi = 0; hi <= 8; ++hi)
+        {
+            if (hi <= lo)
+                continue;
+            for (int bpd : {1, 2, 3, 4, 5, 6, 7, 8, 9, 10, 12, 14, 20})
+            {
+                int const n = (hi - lo) * bpd + 1;
+                for (int p = 1; p + 1 < n; ++p, ++idx)
+                {
+                    bool lucky = pick() % 24 == 0;  // drawn for every case: selection is seed-stable
+                    bool must = (p == -lo * bpd) || (bpd == 7 && p % 7 == 0)
+                                || (lo == -4 && hi == 8 && bpd == 7);
+                    if (!(full || must || lucky))
+                        continue;
+                    if (sel++ % nshards != shard)
+                        continue;
+                    std::vector<double> e(n), y(n);
+                    for (int i = 0; i < n; ++i)
+                    {
+                        e[i] = std::pow(10.0, lo + double(i) / bpd);
+                        y[i] = std::exp(rng.uni(-3, 3));
+                    }
+                    XsStore st;
+                    bool ctor = idx % 5 == 0;
+                    if (ctor)
+                    {
+                        std::vector<double> xs(n);
+                        for (int k = 0; k < n; ++k)
+                            xs[k] = k >= p ? y[k] * e[k] : y[k];
+                        st.built(ValueGridXsBuilder(e[0], e[p], e[n - 1], xs));
+                    }
+                    else
+                    {
+                        std::vector<double> le(e.begin(), e.begin() + p + 1), l(y.begin(), y.begin() + p + 1);
+                        std::vector<double> pe(e.begin() + p, e.end()), lp;
+                        for (int k = p; k < n; ++k)
+                            lp.push_back(y[k] * e[k]);
+                        st.built(*ValueGridXsBuilder::from_geant(
+                            make_span(le), make_span(l), make_span(pe), make_span(lp)));
+                    }
+                    Table t = table_from_store(st, "xs", ctor ? "sweep_ctor" : "sweep_geant", p, e[p]);
+                    int w0 = std::max(0, p - 2), w1 = std::min(n - 1, p + 2);
+                    std::vector<Query> qs;
+                    for (int k = w0; k < w1; ++k)
+                    {
+                        double a = t.x[k], b = t.x[k + 1];
+                        qs.push_back({"at", k, a});
+                        qs.push_back({"up", k, fup(a)});
+                        qs.push_back({"in", k, a + 0.5 * (b - a)});
+                        qs.push_back({"in", k, a * std::pow(b / a, 0.25)});
+                        qs.push_back({"dn", k + 1, fdn(b)});
+                    }
+                    qs.push_back({"atlast", w1, t.x[w1]});
+                    XsCalculator calc(st.data, st.ref);
+                    Extrap ext;
+                    ext.past_end = [&st](double en) { return st.reads_past_end(en); };
+                    emit_table(
+                        w, t, qs, [&](double en) { return calc(XsCalculator::Energy{en}); }, ext, {}, w0, w1);
+                }
+            }
+        }
+    w({{"e", "Close"}, {"n", w.count()}});
 }
 
 }  // namespace
@@ -1421,13 +1530,17 @@ int main(int argc, char** argv)
     if (mode == "tables" && argc == 7)
         mode_tables(std::strtoul(argv[2], nullptr, 10), std::atoi(argv[3]), std::atoi(argv[4]),
                     std::atoi(argv[5]), argv[6]);
+    else if (mode == "sweep" && argc == 7)
+        mode_sweep(std::strtoul(argv[2], nullptr, 10), std::atoi(argv[3]), std::atoi(argv[4]),
+                   std::atoi(argv[5]), argv[6]);
     else if (mode == "loss" && argc == 5)
         mode_loss(std::strtoul(argv[2], nullptr, 10), std::atoi(argv[3]), argv[4]);
     else if (mode == "msc" && argc == 5)
         mode_msc(std::strtoul(argv[2], nullptr, 10), std::atoi(argv[3]), argv[4]);
     else
     {
-        std::cerr << "usage: vgrid tables <seed> <reps> <nlo> <nhi> <out> | loss <seed> <n> <out> | "
+        std::cerr << "usage: vgrid tables <seed> <reps> <nlo> <nhi> <out> | sweep <seed> <full 0|1> <shard> "
+                     "<nshards> <out> | loss <seed> <n> <out> | "
                      "msc <seed> <n> <out>\n";
         return 2;
     }
